@@ -524,3 +524,18 @@ PROPS['C14'] = dict(
                  'the Go driver lexes formatter output into hunks (numbers as written, tagged body lines) without interpreting ranges',
                  'known findings F5 (reader: omitted count read as 0) and F6 (writer: empty unified range spelled with the following line) are attributed by the same specification with Conv={F5,F6}',
                  'lines never contain newlines; line strings include empty lines and lines that look like diff syntax'])
+
+# --------------------------------------------------------------------------
+# C15 / C16 package shell
+PROPS['C15'] = dict(
+    mc=[dict(module='QuoteMC', cfg=('QuoteMC_q.cfg', 'QuoteMC_t.cfg'), emit=True, workers=8)],
+    trace=dict(module='QuoteTrace', cfg='QuoteTrace.cfg', stack='256m'),
+    assumptions=['TLC; ShellLex.tla Eval: POSIX word evaluation (XCU 2.2) with the must-quote / may-quote byte lists taken from the standard, not from the package constants',
+                 'exhaustive over every single byte, all strings up to the length bound over 14 byte classes, all short lists; seeded random beyond',
+                 'a shell obtains exactly s only for s without NUL (the model itself handles NUL as an ordinary byte)'])
+PROPS['C16'] = dict(
+    mc=[dict(module='ShellMC', cfg=('ShellMC_q.cfg', 'ShellMC_t.cfg'), emit=True, workers=8)],
+    trace=dict(module='ShellTrace', cfg='ShellTrace.cfg', stack='256m'),
+    assumptions=['TLC; ShellLex.tla Lex: reference tokenizer written by quoting modes from the POSIX rules; Table: the 7x6 table of shell.go as data',
+                 'input ending inside a quote or after a backslash yields the partial (possibly empty) word with complete = FALSE; $ and ` are ordinary bytes for Split (outside the six classes)',
+                 'exhaustive over all strings up to the length bound over six class representatives, every byte value in four contexts; seeded random and >4096-byte inputs beyond'])
